@@ -31,7 +31,9 @@ from . import common as C
 
 TRACE = True
 TRUSTED = [
-    "virtual-time simulator (harness/vsim.py): fake transports, integer-millisecond clock, one IPv4 socket per instance; OSError from real sockets is not modelled",
+    "virtual-time simulator (harness/vsim.py): fake transports, integer-millisecond clock, one IPv4 socket per instance (IPv6 sources are delivered to its listener as "
+    "4-tuples with flowinfo and scope id, so the unpacking, the scoped records and the scoped address handling of lookups run; replies to them are not sent by the IPv4 "
+    "transport); OSError from real sockets is not modelled",
     "the Lean host model treats the record manager / browser callbacks / lookup listeners, the answer computation of the query handler and the outgoing queues as "
     "uninterpreted components (named hypotheses of C15_total_partial); they are exercised only by the fuzz streams of stage O",
     "text layer of names: '.'.join(labels) followed by split('.') is modelled as splitting every decoded label at U+002E (compared per datagram by `c15enc`)",
@@ -52,6 +54,7 @@ SELF_IP = "10.0.0.1"
 PEER = "10.0.0.2"
 IPS = ["10.9.9.9", PEER, SELF_IP, "10.9.9.9"]
 PORTS = [5353, 5353, 5353, 40000, 53, 1, 65535]
+SRC6 = [("fe80::9", 5353, 0, 3), ("fe80::9", 5353, 0, 3), ("fe80::a", 40000, 0, 2), ("fe80::b", 5353, 7, 0), ("2001:db8::1", 5353, 0, 0), ("fe80::c", 53, 0, 9)]
 GAPS = [0, 0, 0, 1, 5, 50, 120, 300, 450, 999, 1000, 1200, 5000, 11000]
 MAXLEN = 8966
 
@@ -179,8 +182,14 @@ def lookup_resp(rng):
         recs.append(rr(inst, 33, 0x8001, 120, struct.pack(">HHH", 0, 0, 8080) + host))
     if rng.random() < 0.8:
         recs.append(rr(inst, 16, 0x8001, 4500, b"\x03a=b"))
-    if rng.random() < 0.6:
-        recs.append(rr(host, 1, 0x8001, 120, socket.inet_aton("10.0.0.7")))
+    # address records of the lookup's server with rdata of every length around the two legal ones (4, 16): the lookup's address branch
+    # (`_process_record_threadsafe`, scoped and unscoped) sees well-formed and malformed addresses while it is listening
+    for _ in range(rng.choice([0, 1, 1, 2])):
+        t = rng.choice([1, 28])
+        n = rng.choice([0, 3, 4, 4, 15, 16, 16, 17])
+        recs.append(rr(host, t, rng.choice([0x8001, 1]), rng.choice([120, 0, 1]),
+                       bytes(rng.choice([0xFE, 0x80, 0, 10, rng.randrange(256)]) for _ in range(n))))
+    rng.shuffle(recs)
     return hdr(0, 0x8400, 0, len(recs)) + b"".join(recs)
 
 
@@ -443,28 +452,34 @@ def simulate(case):
         fam_q = hdr((case.get("canary_id", 4242) + 7) & 0xFFFF, 0, 1) + q(labels_of(infos[0].name), 33)
 
         def replied_to(n0, src):
-            """was a response carrying the first service's SRV sent to `src` since log position n0?"""
+            """was a response datagram sent to `src` since log position n0?  (Only the QR bit is looked at: when the query is assembled with a
+            deferred truncated packet of the same address, the reply echoes *that* packet's questions, and a root-name question is written back
+            as `00 00`, which makes the rest of the reply unreadable -- the reply was still sent, which is what the duplicate rule is about.)"""
             for (tm, s_, ip, p_, d_) in sim.net.log[n0:]:
-                if (ip, p_) != tuple(src):
-                    continue
-                try:
-                    m = DNSIncoming(d_)
-                    if m.valid and not m.is_query() and any(x.type == 33 and x.ttl > 0 and x.name.lower() == infos[0].name.lower() for x in m.answers()):
-                        return True
-                except Exception:
-                    pass
+                if (ip, p_) == tuple(src[:2]) and len(d_) >= 12 and d_[2] & 0x80:
+                    return True
             return False
         browsers = [AsyncServiceBrowser(zc, [TB], listener=L()), AsyncServiceBrowser(zc, [TB, TA] if case["browse_own"] else [TB], handlers=[handler])]
         await sim.sleep_ms(case["start"])
         lookup = None
         lookup_res = {}
+        streaming = {"on": True}
         if case["lookup"]:
             async def do_lookup():
-                si = AsyncServiceInfo(TB, "x." + TB)
-                try:
-                    lookup_res["ok"] = bool(await si.async_request(zc, 3000))
-                except Exception as e:
-                    lookup_res["raised"] = exc_name(e)
+                # a lookup is in progress during the whole stream: a new request starts 0.7 s after the previous one ended
+                runs = 0
+                while True:
+                    si = AsyncServiceInfo(TB, "x." + TB)
+                    try:
+                        lookup_res["ok"] = bool(await si.async_request(zc, 3000))
+                    except Exception as e:
+                        lookup_res["raised"] = exc_name(e)
+                        return
+                    runs += 1
+                    lookup_res["runs"] = runs
+                    if not streaming["on"] or runs >= 400:
+                        return
+                    await asyncio.sleep(0.7)
             lookup = asyncio.ensure_future(do_lookup())
         last = None
         if "items" in case:
@@ -496,6 +511,9 @@ def simulate(case):
                 else:
                     kind, data = gen_item(rng, live, names, last, kind0)
                     src = (rng.choice(IPS), rng.choice(PORTS))
+                    if rng.random() < (0.5 if kind in ("lookup", "resp", "hostile") else 0.2):
+                        # an IPv6 source: the socket layer hands the listener a 4-tuple (address, port, flowinfo, scope id)
+                        src = rng.choice(SRC6)
                     if kind == "d8":
                         src = (src[0], rng.choice([40000, 40000, 5353]))
                     subs = [(rng.choice(GAPS), kind, data, src)]
@@ -511,7 +529,8 @@ def simulate(case):
                     obs["escapes"].append({"index": len(obs["items"]) - 1, "exc": r, "kind": kind, "len": len(data)})
                 if data == fam_q:
                     obs["fam"].append({"index": len(obs["items"]) - 1, "t": sim.now(), "src": list(src),
-                                       "replied": replied_to(n_log, src) if src[1] != 5353 else None})
+                                       "replied": replied_to(n_log, src) if src[1] != 5353 and ":" not in src[0] else None})
+        streaming["on"] = False
         await sim.sleep_ms(case["tail"])
         obs["live"] = len(live)
         # ---- canaries 1a/1b: well-formed queries are still answered -- through the aggregated multicast path (QM PTR) and through
